@@ -289,13 +289,26 @@ thread_local! {
 }
 
 #[cfg(pyxis_verif)]
+thread_local! {
+    static EMIT_COUNT: std::cell::Cell<usize> = std::cell::Cell::new(0);
+}
+#[cfg(pyxis_verif)]
 fn maybe_emit(st: &ResolvedSemanticState) {
     let dir = EMIT_DIR.with(|d| d.borrow().clone());
     if let Some(dir) = dir {
+        // every build of a product template is also kept on its own (`.builds/<n>/`), so that the files of two builds can be compared
+        let n = EMIT_COUNT.with(|c| {
+            let v = c.get();
+            c.set(v + 1);
+            v
+        });
+        let own = dir.join(".builds").join(n.to_string());
+        let _ = std::fs::create_dir_all(&own);
         for (key, module) in st.modules() {
             if let Err(e) = crate::backends::rust::write_module(&dir, key, st, module) {
                 eprintln!("EMIT-ERROR {e:?}");
             }
+            let _ = crate::backends::rust::write_module(&own, key, st, module);
         }
     }
 }
@@ -1327,7 +1340,7 @@ pub fn t_order_vft(a: &[i64]) -> Val {
 }
 
 // t_equiv: a description and a rewritten but equivalent description (C20).
-//   extern X0 (s0, al), X1 (s1, al);  type T { [vftable { v0; v1 }] f0: X0, <gap g>, f1: X1 }  enum E: i32 { A = e0, B, C }
+//   extern X0 (s0, al), X1 (s1, al);  type T { [vftable { v0; v1 }] f0: X0, <gap g>, f1: X1 }  enum t: i32 { A = e0, B, C }
 // a = [ps, s0, s1, al, g, e0, vft, r_addr0, r_gap, r_size, r_index, r_enum, r_order, r_addr1, base_mode, packed (2 = packed with a leading u8 field), gap_style]
 //   r_addr0 : f0 gets the explicit address it already has          r_addr1: same for f1
 //   r_gap   : the gap is written as `_: unknown<g>` in the first description and as #[address] on f1 in the second
@@ -1397,8 +1410,9 @@ pub fn t_equiv(a: &[i64]) -> Val {
         }
         let td = ID::new((V::Public, "T"), TD::new(stmts).with_attributes(t_attrs));
         let b = if on(11) { ES::field_with_expr("B", E::IntLiteral(e0.wrapping_add(1))) } else { ES::field("B") };
+        // the enum is called `t`: its name differs from the type `T` only in case (emission order must not depend on declaration order)
         let ed = ID::new(
-            (V::Public, "E"),
+            (V::Public, "t"),
             ED::new(T::ident("i32"), [ES::field_with_expr("A", E::IntLiteral(e0)), b, ES::field("C")], []),
         );
         let bv = ID::new(
